@@ -17,11 +17,12 @@ META = {
     "design_ref": "6 C06",
 }
 
-THEOREMS_FULL = [
+THEOREMS = [
     "C06_init",
     "C06_step",
     "C06_reachable",
     "C06_get",
+    "C06_get_none",
     "C06_request_free",
     "C06_next_free",
     "C06_conflict_noop",
@@ -30,7 +31,6 @@ THEOREMS_FULL = [
     "C06_free_standing_partial",
 ]
 
-THEOREMS = ["C06_stub"]
 KINDS = ["cell", "surface", "material", "transform", "universe"]
 PROBES = list(range(-1, 10))
 ERRS = {"TypeError", "ValueError", "NumberConflictError", "KeyError", "IndexError"}
